@@ -283,14 +283,23 @@ impl Janitor {
       return;
     }
     let cost_to_free = current_cost - context.capacity;
-    let (victims, cost_released) = context.cache_policy[shard_index].evict(cost_to_free);
+    let (victims, _policy_cost) = context.cache_policy[shard_index].evict(cost_to_free);
     if victims.is_empty() {
       return;
     }
+    // Account for what actually left the map: a nominated key may already be
+    // gone (removed by the user while its write event was still queued), and
+    // the policy's recorded cost can lag behind an overwrite. Subtracting the
+    // policy's figure for every nominee drove `current_cost` below the real
+    // resident cost and kept the cache over capacity.
+    let mut removed_count = 0u64;
+    let mut cost_released = 0u64;
     {
       let mut guard = shard.map.write();
       for key in &victims {
         if let Some(removed) = guard.remove(key) {
+          removed_count += 1;
+          cost_released += removed.cost();
           if let Some(sender) = &context.notification_sender {
             let _ = sender.try_send((key.clone(), removed.value(), EvictionReason::Capacity));
           }
@@ -300,7 +309,7 @@ impl Janitor {
     context
       .metrics
       .evicted_by_capacity
-      .fetch_add(victims.len() as u64, Ordering::Relaxed);
+      .fetch_add(removed_count, Ordering::Relaxed);
     context
       .metrics
       .current_cost
